@@ -3,10 +3,12 @@ package main
 import (
 	"encoding/base64"
 	"fmt"
+	"io"
 	"net/http"
 	"net/http/httptest"
 	"net/url"
 	"strings"
+	"time"
 
 	"github.com/gookit/rux"
 	"github.com/gookit/rux/pkg/handlers"
@@ -79,12 +81,18 @@ func c20Gen(r *Rng, tier string, i int) Sx {
 		case 6:
 			hdr = "Basic" + cred
 		}
+		if r.Chance(1, 3) { // something listed before the auth middleware has already started the response
+			return L(A("auth"), LS(accts), S(hdr), c20Decode(hdr), A("pre"))
+		}
 		return L(A("auth"), LS(accts), S(hdr), c20Decode(hdr))
 	case 2:
 		vals := []string{"PUT", "put", "Patch", "DELETE", "delete", "POST", "GET", "", "PROPFIND", "HEAD", "pu", " put"}
 		m := r.Pick(rtMethods)
 		if r.Chance(1, 2) {
 			m = "POST"
+		}
+		if r.Chance(1, 4) { // the shipped Timeout middleware sits between the override wrapper and the observing handler
+			return L(A("ovr"), S(m), S(r.Pick(vals)), S(r.Pick(vals)), A(r.Pick([]string{"q", "b", "n"})), A("timeout"))
 		}
 		return L(A("ovr"), S(m), S(r.Pick(vals)), S(r.Pick(vals)), A(r.Pick([]string{"q", "b", "n"})))
 	default:
@@ -122,17 +130,34 @@ func c20Exec(c Sx) Sx {
 		}
 		w := httptest.NewRecorder()
 		r.ServeHTTP(w, req)
+		if len(c.List) > 4 { // the same gate behind a middleware that writes first: the decision must be the same
+			ran2 := false
+			r2 := rux.New()
+			r2.GET("/x", func(c *rux.Context) { ran2 = true }, func(c *rux.Context) { c.WriteString("banner\n"); c.Next() }, handlers.HTTPBasicAuth(accounts))
+			req2 := httptest.NewRequest("GET", "/x", nil)
+			if hdr != "" {
+				req2.Header.Set("Authorization", hdr)
+			}
+			r2.ServeHTTP(httptest.NewRecorder(), req2)
+			if ran2 != ran {
+				return L(A("auth"), A("gate-differs-after-an-earlier-write"), B(ran), B(ran2))
+			}
+		}
 		return L(A("auth"), B(ran), I(w.Code), S(w.Header().Get("WWW-Authenticate")))
 	case "ovr":
 		m, fv, hv, carrier := c.List[1].Str(), c.List[2].Str(), c.List[3].Str(), c.List[4].Sym()
 		seen, orig := "", "none"
 		r := rux.New()
+		var between []rux.HandlerFunc
+		if len(c.List) > 5 {
+			between = append(between, handlers.Timeout(time.Hour))
+		}
 		r.Any("/x", func(c *rux.Context) {
 			seen = c.Req.Method
 			if v, ok := c.Req.Context().Value(handlers.OriginalMethodContextKey).(string); ok {
 				orig = v
 			}
-		})
+		}, between...)
 		h := r.WrapHTTPHandlers(handlers.HTTPMethodOverrideHandler)
 		target := "/x"
 		var body *strings.Reader
@@ -201,6 +226,27 @@ func c20Exec(c Sx) Sx {
 		}
 		r.GET("/x", func(c *rux.Context) { evs = append(evs, I(990)) }, mws...)
 		r.ServeHTTP(httptest.NewRecorder(), httptest.NewRequest("GET", "/x", nil))
+		// a plain net/http handler that answers (status, then text through io.WriteString / Write / Fprint) gives the
+		// response its native twin gives
+		codes := []int{503, 404, 201, 200}
+		code := codes[(n+k)%len(codes)]
+		resp := func(h rux.HandlerFunc) string {
+			rr := rux.New()
+			rr.GET("/y", h)
+			w := httptest.NewRecorder()
+			rr.ServeHTTP(w, httptest.NewRequest("GET", "/y", nil))
+			return fmt.Sprint(w.Code, " ", w.Body.String())
+		}
+		native := resp(func(c *rux.Context) { c.SetStatus(code); c.WriteString("text") })
+		for j, wrapped := range []rux.HandlerFunc{
+			rux.WrapHTTPHandler(http.HandlerFunc(func(w http.ResponseWriter, _ *http.Request) { w.WriteHeader(code); _, _ = io.WriteString(w, "text") })),
+			rux.WrapHTTPHandlerFunc(func(w http.ResponseWriter, _ *http.Request) { w.WriteHeader(code); _, _ = w.Write([]byte("text")) }),
+			rux.WrapHTTPHandlerFunc(func(w http.ResponseWriter, _ *http.Request) { w.WriteHeader(code); fmt.Fprint(w, "text") }),
+		} {
+			if got := resp(wrapped); got != native {
+				return L(A("wraph"), A("wrapped-response-differs-from-native"), I(j), S(got), S(native))
+			}
+		}
 		return LS(append([]Sx{A("wraph")}, evs...))
 	}
 	panic("c20: bad case " + c.String())
